@@ -1631,6 +1631,9 @@ lp_upolynomial_factors_t* upolynomial_factor_Z(const lp_upolynomial_t* f) {
   // Get rid of the square free factors
   lp_upolynomial_factors_destruct(sq_free_factors, 0);
 
+  // Get rid of the primitive part
+  lp_upolynomial_delete(f_pp);
+
   if (trace_is_enabled("factorization")) {
     tracef("upolynomial_factor_Z("); lp_upolynomial_print(f, trace_out); tracef(") = ");
     lp_upolynomial_factors_print(factors, trace_out); tracef("\n");
